@@ -21,10 +21,11 @@ func init() {
 			{ID: "R01.3", Configs: "all", Run: ruleR01_3},
 			{ID: "R01.4", Configs: "all", Run: ruleR01_4},
 			{ID: "R01.5", Configs: "all", Run: ruleR01_5},
+			{ID: "R01.6", Configs: "all", Run: ruleR01_6},
 		},
 		Explanation: "Does not decide round-trip equality (a relation between runtime byte strings). Decides five encoder-side necessary conditions, each of which, if broken, makes some input undecodable or mis-decoded: (R01.1) the encoder's code-length order and base-distance table equal the decoder's and RFC 1951's, the repeat codes are 16/17/18, and the header writer uses the RFC bit widths (3,5,5,4, 3 per code-length code, 2/3/7 extra bits); " +
 			"(R01.2) every Huffman generation in the compressor is limited to 15 bits for literal/length and distance codes and 7 bits for the code-length code; (R01.3) in the Go match finder every emitted token is counted in the histogram (literal/length symbol, and distance symbol unless it is the literal marker) on every path before the function returns or starts the next position; " +
-			"(R01.4) the block framing rules of C10 (alignment, end-of-block, final flag) hold, and the empty-final-block shortcut is taken only when nothing was ever accumulated; (R01.5) every compressor call of the Writer is behind the delegation test and non-accelerated settings go to compress/flate unchanged.",
+			"(R01.4) the block framing rules of C10 (alignment, end-of-block, final flag) hold, and the empty-final-block shortcut is taken only when nothing was ever accumulated; (R01.5) every compressor call of the Writer is behind the delegation test and non-accelerated settings go to compress/flate unchanged; (R01.6) in the Go match finder the byte emitted as a literal is loaded from the very position that the literal step then advances past (on every incoming path the pair (loaded word, offset) is consistent).",
 		NotDecided: []string{
 			"match verification inside the assembly finders and the Go finder's byte comparisons",
 			"Huffman code construction (Kraft completeness, canonical code assignment), bit packing, buffer sliding arithmetic",
@@ -38,9 +39,10 @@ func init() {
 			{ID: "R02.2", Configs: "first", Run: ruleR02_2},
 			{ID: "R02.3", Configs: "all", Run: ruleR02_3},
 			{ID: "R02.4", Configs: "asm", Run: ruleR18_1},
+			{ID: "R02.5", Configs: "all", Run: ruleR02_5},
 		},
 		Explanation: "Does not decide decode equality. Decides that the constant data and layout assumptions both decode loops rely on are right: (R02.1, exhaustive) every one of the 4096 short entries of the precomputed fixed literal/length table, every long-table entry they point to, and every one of the 1024 fixed distance entries describes exactly the symbols the RFC 1951 fixed code assigns to those bits, in the entry format the decode loops define (1-3 packed symbols, all but the last literals, bit count = sum of code lengths plus folded extra bits, zero length exactly for the non-existent symbols 286/287 and 30/31); " +
-			"(R02.2) the RFC base/extra tables equal RFC 1951; (R02.3) the slack constants satisfy the relations the fast paths rely on; (R02.4) every struct offset hard-coded in the assembly lands on the intended field (= R18.1).",
+			"(R02.2) the RFC base/extra tables equal RFC 1951; (R02.3) the slack constants satisfy the relations the fast paths rely on; (R02.4) every struct offset hard-coded in the assembly lands on the intended field (= R18.1); (R02.5) in the dynamic-header parser every store of a code length is preceded, within the same loop iteration, by the test that switches from the literal/length lengths to the distance lengths at 257+HLIT, so a repeat run may cross that boundary as RFC 1951 allows.",
 		NotDecided: []string{
 			"the table builders for dynamic codes and both decode loops (runtime arithmetic)",
 			"history wrap-around and carry-over logic",
@@ -1225,5 +1227,227 @@ func ruleR06_4(p *Program, r *Report) {
 			}
 		}
 		r.Check(why == "", "R06.4", key+"|checksum covers what is compressed", p.InstrPos(comp), "the bytes checksummed (and counted) are the slice handed to the compressor, on every success path", why)
+	}
+}
+
+// R01.6: the literal emitted is the byte at the offset being consumed.
+func ruleR01_6(p *Program, r *Report) {
+	r.Expect("R01.6", 2)
+	lz := p.Func(deflRel, "lz77")
+	nt := p.Func(deflRel, "newToken")
+	ld := p.Func(deflRel, "loadU32")
+	if lz == nil || nt == nil {
+		r.Undecided("R01.6", "anchors", "-", "lz77 and newToken exist", "not found")
+		return
+	}
+	input := lz.Params[5]
+	invalid, _ := constOf(p, deflRel, "InvalidDist")
+	// consistent: value v is the word/byte loaded from input at position off (pairwise over phis of one block)
+	var consistent func(v, off ssa.Value, depth int) bool
+	consistent = func(v, off ssa.Value, depth int) bool {
+		v, off = stripConv(v), stripConv(off)
+		if depth > 6 {
+			return false
+		}
+		switch x := v.(type) {
+		case *ssa.Call:
+			if x.Common().StaticCallee() == ld && ld != nil {
+				return x.Common().Args[0] == ssa.Value(input) && stripConv(x.Common().Args[1]) == off
+			}
+		case *ssa.UnOp:
+			if ia, ok := x.X.(*ssa.IndexAddr); ok && x.Op == token.MUL {
+				return ia.X == ssa.Value(input) && stripConv(ia.Index) == off
+			}
+		case *ssa.BinOp:
+			if x.Op == token.AND {
+				return consistent(x.X, off, depth+1)
+			}
+		case *ssa.Phi:
+			if op, ok := off.(*ssa.Phi); ok && op.Block() == x.Block() {
+				for i := range x.Edges {
+					if !consistent(x.Edges[i], op.Edges[i], depth+1) {
+						return false
+					}
+				}
+				return true
+			}
+			// the offset is one value for all incoming paths
+			for _, e := range x.Edges {
+				if !consistent(e, off, depth+1) {
+					return false
+				}
+			}
+			return true
+		}
+		return false
+	}
+	lab := newLabeler()
+	n := 0
+	for _, c := range allCalls(lz) {
+		if c.Common().StaticCallee() != nt {
+			continue
+		}
+		if k, isK := constInt(c.Common().Args[1]); !isK || k != invalid {
+			continue
+		}
+		n++
+		key := "lz77|" + lab.get("literal token")
+		lit := c.Common().Args[0]
+		// the offset advanced by this literal step: offset + 1 in the same block
+		var off ssa.Value
+		for _, in := range c.Block().Instrs {
+			if bo, ok := in.(*ssa.BinOp); ok && bo.Op == token.ADD {
+				if k, isK := constInt(bo.Y); isK && k == 1 {
+					if _, isInt := bo.Type().Underlying().(*types.Basic); isInt && typeString(bo.Type()) == "int" {
+						// candidate: the operand must be (a phi of) the offset parameter's flow
+						for _, leaf := range p.valueSources(bo.X) {
+							if leaf == ssa.Value(lz.Params[7]) {
+								off = bo.X
+							}
+						}
+						if off == nil {
+							if _, isPhi := bo.X.(*ssa.Phi); isPhi {
+								off = bo.X
+							}
+						}
+					}
+				}
+			}
+		}
+		if off == nil {
+			r.Undecided("R01.6", key, p.InstrPos(c), "the literal step advances an offset by one", "offset increment not found in the block")
+			continue
+		}
+		r.Check(consistent(lit, off, 0), "R01.6", key, p.InstrPos(c), "the literal emitted is the input byte at the offset this step advances past, on every incoming path", "on some path the literal comes from a word loaded at a different offset than the one consumed: the stream stays well-formed but decodes to a wrong byte")
+	}
+	if n < 2 {
+		r.Undecided("R01.6", "lz77|literal tokens", p.Pos(lz.Pos()), "two literal-token sites", "found "+itoa(n))
+	}
+}
+
+// R02.5: every code-length store in readLitDistLens is preceded in its loop iteration by the lit/dist boundary test.
+func ruleR02_5(p *Program, r *Report) {
+	r.Expect("R02.5", 2)
+	fn := p.Method(flateRel, "inflate", "readLitDistLens")
+	if fn == nil {
+		r.Undecided("R02.5", "anchor", "-", "inflate.readLitDistLens exists", "not found")
+		return
+	}
+	hlit := fn.Params[3]
+	// boundary test: an If whose condition compares something with a value derived from hlit (257+hlit) for equality
+	isBoundary := func(in ssa.Instruction) bool {
+		iff, ok := in.(*ssa.If)
+		if !ok {
+			return false
+		}
+		bo, ok := iff.Cond.(*ssa.BinOp)
+		if !ok || bo.Op != token.EQL {
+			return false
+		}
+		for _, v := range []ssa.Value{bo.X, bo.Y} {
+			if b2, ok := stripConv(v).(*ssa.BinOp); ok && b2.Op == token.ADD {
+				for _, w := range []ssa.Value{b2.X, b2.Y} {
+					if stripConv(w) == ssa.Value(hlit) {
+						return true
+					}
+				}
+			}
+		}
+		return false
+	}
+	lab := newLabeler()
+	n := 0
+	for _, b := range fn.Blocks {
+		for _, in := range b.Instrs {
+			st, ok := in.(*ssa.Store)
+			if !ok {
+				continue
+			}
+			ia, ok := st.Addr.(*ssa.IndexAddr)
+			if !ok {
+				continue
+			}
+			// element of the code array (huffs = ctx.litAndDistHuff[:...])
+			if _, sel := accessPath(ia.X); sel != ".litAndDistHuff" {
+				// also through a field address of the element (Set method inlined or not)
+				continue
+			}
+			n++
+			key := "readLitDistLens|" + lab.get("length store")
+			// innermost loop header containing the store
+			var inner *ssa.BasicBlock
+			for _, h := range fn.Blocks {
+				if !h.Dominates(b) {
+					continue
+				}
+				isHeader := false
+				for _, pr := range h.Preds {
+					if h.Dominates(pr) {
+						if f, _, _ := (PathQuery{Target: func(x ssa.Instruction) bool { return x.Block() == pr }}).findFromBlock(fn, b); f || pr == b {
+							isHeader = true
+						}
+					}
+				}
+				if isHeader && (inner == nil || inner.Dominates(h)) {
+					inner = h
+				}
+			}
+			if inner == nil {
+				r.Undecided("R02.5", key, p.InstrPos(st), "the store lies in a loop", "no enclosing loop")
+				continue
+			}
+			found, _, path := PathQuery{Target: func(x ssa.Instruction) bool { return x == ssa.Instruction(st) }, Barrier: isBoundary}.findFromBlock(fn, inner)
+			why := ""
+			if found {
+				why = "within one iteration of the loop headed at block " + itoa(inner.Index) + " the store is reachable (blocks " + fmtInts(path) + ") without the 257+HLIT boundary test: a run that crosses from the literal/length lengths into the distance lengths keeps writing literal/length entries"
+			}
+			r.Check(!found, "R02.5", key, p.InstrPos(st), "a code length is stored only after the literal/distance boundary test of the same iteration", why)
+		}
+	}
+	// method-call form: huffs[curr].Set(...)
+	for _, c := range allCalls(fn) {
+		f := c.Common().StaticCallee()
+		if f == nil || f.Name() != "Set" || len(c.Common().Args) == 0 {
+			continue
+		}
+		ia, ok := c.Common().Args[0].(*ssa.IndexAddr)
+		if !ok {
+			continue
+		}
+		if _, sel := accessPath(ia.X); sel != ".litAndDistHuff" {
+			continue
+		}
+		n++
+		key := "readLitDistLens|" + lab.get("length store")
+		b := c.Block()
+		var inner *ssa.BasicBlock
+		for _, h := range fn.Blocks {
+			if !h.Dominates(b) {
+				continue
+			}
+			isHeader := false
+			for _, pr := range h.Preds {
+				if h.Dominates(pr) {
+					if f2, _, _ := (PathQuery{Target: func(x ssa.Instruction) bool { return x.Block() == pr }}).findFromBlock(fn, b); f2 || pr == b {
+						isHeader = true
+					}
+				}
+			}
+			if isHeader && (inner == nil || inner.Dominates(h)) {
+				inner = h
+			}
+		}
+		if inner == nil {
+			continue
+		}
+		found, _, path := PathQuery{Target: func(x ssa.Instruction) bool { return x == ssa.Instruction(c) }, Barrier: isBoundary}.findFromBlock(fn, inner)
+		why := ""
+		if found {
+			why = "within one loop iteration the store is reachable (blocks " + fmtInts(path) + ") without the 257+HLIT boundary test"
+		}
+		r.Check(!found, "R02.5", key, p.InstrPos(c), "a code length is stored only after the literal/distance boundary test of the same iteration", why)
+	}
+	if n < 2 {
+		r.Undecided("R02.5", "readLitDistLens|stores", p.Pos(fn.Pos()), "at least two code-length store sites", "found "+itoa(n))
 	}
 }
